@@ -797,6 +797,20 @@ func SetConforms(typeCtx map[ast.Variable]ast.BaseTerm, left ast.BaseTerm, right
 	return TypeConforms(typeCtx, left, right)
 }
 
+// isNamePrefixType returns true if c is a name constant used as a type (the set of
+// names below it), i.e. a name that is not the spelling of a base type.
+func isNamePrefixType(c ast.Constant) bool {
+	if c.Type != ast.NameType {
+		return false
+	}
+	switch c {
+	case ast.AnyBound, ast.BotBound, ast.Float64Bound, ast.NameBound, ast.NumberBound,
+		ast.StringBound, ast.BytesBound, ast.TimeBound, ast.DurationBound:
+		return false
+	}
+	return true
+}
+
 // TypeConforms returns true if ctx |- left <: right.
 // The arguments left and right cannot be RelType or UnionType
 func TypeConforms(ctx map[ast.Variable]ast.BaseTerm, left ast.BaseTerm, right ast.BaseTerm) bool {
@@ -805,10 +819,16 @@ func TypeConforms(ctx map[ast.Variable]ast.BaseTerm, left ast.BaseTerm, right as
 	}
 	if leftConst, ok := left.(ast.Constant); ok {
 		if rightConst, ok := right.(ast.Constant); ok {
-			if strings.HasPrefix(leftConst.Symbol, rightConst.Symbol) {
+			// Only a name prefix type /a/b (not a base type such as /number, which is
+			// also spelled as a name) conforms to /name, or to a name prefix type
+			// that is a proper path prefix (/a, but not /a/bc versus /a/b).
+			if !isNamePrefixType(leftConst) {
+				return false
+			}
+			if rightConst.Equals(ast.NameBound) {
 				return true
 			}
-			return leftConst.Type == ast.NameType && rightConst.Equals(ast.NameBound)
+			return isNamePrefixType(rightConst) && strings.HasPrefix(leftConst.Symbol, rightConst.Symbol+"/")
 		}
 	}
 	// fn:Singleton(c) <: T if c is a member of T.
